@@ -166,6 +166,114 @@ func c02GenCaps(rng *kit.Rand) []string {
 	return out
 }
 
+var (
+	c02ParamKeys = []string{"owner", "tier", "ticket", "note", "v"}
+	c02ParamVals = []string{"gold", "silver", "x"}
+)
+
+// c02GenCons gives a stanza parameter constraints (and makes sure it grants a writing capability
+// they can apply to, patch among them).
+func c02GenCons(rng *kit.Rand, ru *c02Rule) {
+	pickKeys := func(n int) []string {
+		ks := append([]string(nil), c02ParamKeys...)
+		rng.Shuffle(len(ks), func(i, j int) { ks[i], ks[j] = ks[j], ks[i] })
+		return ks[:n]
+	}
+	vals := func() []string {
+		switch rng.Intn(3) {
+		case 0:
+			return []string{}
+		case 1:
+			return []string{kit.Pick(rng, c02ParamVals)}
+		}
+		return []string{"gold", "silver"}
+	}
+	for !ru.constrained() {
+		if rng.Chance(1, 2) {
+			ru.Required = pickKeys(1 + rng.Intn(2))
+		}
+		if rng.Chance(1, 2) {
+			ru.Denied = map[string][]string{}
+			for _, k := range pickKeys(1 + rng.Intn(2)) {
+				ru.Denied[k] = vals()
+			}
+			if rng.Chance(1, 10) {
+				ru.Denied = map[string][]string{"*": {}}
+			}
+		}
+		if rng.Chance(1, 2) {
+			ru.Allowed = map[string][]string{}
+			for _, k := range pickKeys(1 + rng.Intn(3)) {
+				ru.Allowed[k] = vals()
+			}
+			if rng.Chance(1, 3) {
+				ru.Allowed["*"] = []string{}
+			}
+		}
+	}
+	if e := ru.eff(); len(e) == 1 && e[0] == "deny" {
+		return
+	}
+	ru.Caps = append(ru.Caps, kit.Pick(rng, []string{"patch", "update", "create"}), "patch")
+}
+
+// paramData: parameters for a writing request at abs, aimed at the parameter constraints of the
+// token's stanzas that match the path: some satisfy them, some violate one of them.
+func (x *c02Run) paramData(t *c02Tok, abs string) map[string]any {
+	rng := x.rng
+	if t == nil || t.Forged {
+		return nil
+	}
+	_, _, _, _, cons := x.w.rulesFor(t, time.Now())
+	var cs []*c02Cons
+	for _, pat := range c02SortedKeys(cons) {
+		if c := cons[pat]; c.Any {
+			if ok, _ := c02Match(pat, abs); ok {
+				cs = append(cs, c)
+			}
+		}
+	}
+	if len(cs) == 0 {
+		return nil
+	}
+	ru := kit.Pick(rng, cs).Rule
+	data := map[string]any{}
+	val := func(list []string, hit bool) string {
+		if hit && len(list) > 0 {
+			return kit.Pick(rng, list)
+		}
+		if hit {
+			return kit.Pick(rng, c02ParamVals)
+		}
+		return "other-" + kit.Pick(rng, c02ParamVals)
+	}
+	for _, k := range ru.Required {
+		if rng.Chance(4, 5) {
+			data[k] = val(ru.Allowed[k], true)
+		}
+	}
+	for k, vs := range ru.Allowed {
+		if k != "*" && rng.Chance(1, 2) {
+			data[k] = val(vs, rng.Chance(3, 4))
+		}
+	}
+	for k, vs := range ru.Denied {
+		if k != "*" && rng.Chance(1, 3) {
+			data[k] = val(vs, rng.Chance(1, 2))
+		}
+	}
+	if rng.Chance(1, 3) {
+		data[kit.Pick(rng, c02ParamKeys)] = kit.Pick(rng, c02ParamVals)
+	}
+	if rng.Chance(1, 4) {
+		data["unlisted"] = "u"
+	}
+	if len(data) == 0 && rng.Chance(1, 2) {
+		data["v"] = rng.Canary()
+	}
+	return data
+}
+
 func (w *c02World) genPattern(rng *kit.Rand, polNS string) string {
 	var cands []*c02Mount
 	for _, m := range w.Mounts {
@@ -209,6 +317,9 @@ func (w *c02World) genPolicy(rng *kit.Rand, ns, name string) *c02Policy {
 		}
 		if !w.TimedAt.IsZero() && rng.Chance(1, 4) {
 			ru.Expire = w.TimedAt
+		}
+		if strings.Contains(pat, "data/") && rng.Chance(1, 6) {
+			c02GenCons(rng, &ru)
 		}
 		p.Rules = append(p.Rules, ru)
 	}
@@ -536,6 +647,21 @@ func (x *c02Run) build() {
 		x.handleCallers(ns, nsTag)
 		// entities with hostile identity values holding templated policies
 		x.templFamily(ns, nsTag)
+		// a holder of stanzas with generated parameter constraints on every mount of the subtree
+		pp := &c02Policy{NS: ns, Name: "pparams"}
+		for _, m := range w.Mounts {
+			if strings.HasPrefix(m.NS, ns) {
+				for k := 0; k < 2; k++ {
+					ru := c02Rule{Pat: fmt.Sprintf("%sdata/pc%d/*", m.Abs[len(ns):], k), Caps: []string{"read", kit.Pick(rng, []string{"create", "update", "patch"})}}
+					c02GenCons(rng, &ru)
+					pp.Rules = append(pp.Rules, ru)
+				}
+			}
+		}
+		if len(pp.Rules) > 0 {
+			x.writePolicy(pp)
+			x.newTok(nsTag+"/params", "live", ns, map[string]any{"policies": []string{"pparams"}}, "", "")
+		}
 	}
 	// token trees that cross namespace boundaries
 	x.treeFamily()
@@ -858,6 +984,10 @@ func (x *c02Run) genReq(tok *c02Tok, directed bool, from *c02Policy) *c02Req {
 	}
 	if op == "create" || op == "update" || op == "patch" {
 		q.Data = map[string]any{"v": rng.Canary()}
+		if d := x.paramData(tok, c02CanonHeader(q.Header)+q.Path); d != nil {
+			q.Data = d
+			q.Why += " +parameters"
+		}
 	}
 	if rng.Chance(1, 25) {
 		q.WrapTTL = 60 // asks for a response-wrapping token: a refused request must not mint one
@@ -977,6 +1107,13 @@ func (x *c02Run) check(q *c02Req, vd *c02Verdict, o *c02Outcome, stage string) b
 	x.nreq++
 	r.Eval(1)
 	bad := func(class, what string) bool {
+		switch {
+		case strings.HasPrefix(stage, "after-refused-change"):
+			// the operator was told the policy change failed; the request was not judged by the stored text
+			class = "C02-refused-policy-change-in-force"
+		case strings.HasPrefix(stage, "after-successful-change"):
+			class = "C02-stale-after-change"
+		}
 		if vd.Kind == "deny" && vd.Reason == "early:relative-path" && (len(o.Handlers) > 0 || o.OK || o.Changed) {
 			class = "C02-relative-path-segment-reached-backend"
 		}
@@ -992,6 +1129,11 @@ func (x *c02Run) check(q *c02Req, vd *c02Verdict, o *c02Outcome, stage string) b
 					anc = anc.Up
 				}
 				what += fmt.Sprintf(" [the token of namespace %q is a descendant of %s (namespace %q) whose tree revocation reported success]", q.Tok.NS, c02TokName(anc), c02NSOf(anc))
+			case strings.HasPrefix(vd.Reason, "policy: parameters: ") && (len(o.Handlers) > 0 || o.OK || o.Carries):
+				class = "C02-request-served-against-parameter-constraints"
+				if q.Op == "patch" {
+					class = "C02-patch-request-served-against-parameter-constraints"
+				}
 			case strings.HasPrefix(vd.Reason, "policy: deny on ") && x.denyStanzaWithOthers(q.Tok, strings.TrimPrefix(vd.Reason, "policy: deny on ")) != "" && (len(o.Handlers) > 0 || o.OK || o.Carries):
 				class = "C02-request-served-on-path-whose-matching-stanza-lists-deny"
 				what += " [" + x.denyStanzaWithOthers(q.Tok, strings.TrimPrefix(vd.Reason, "policy: deny on ")) + "]"
@@ -1067,6 +1209,12 @@ func (x *c02Run) check(q *c02Req, vd *c02Verdict, o *c02Outcome, stage string) b
 				}
 			}
 		}
+	}
+	if strings.HasPrefix(vd.Reason, "policy: parameters: ") {
+		r.Count("refused_for_parameter_constraints:"+vd.Op, 1)
+		r.Nontrivial("params|" + vd.Op + "|" + vd.Abs + "|" + c02Short(vd.Reason))
+	} else if vd.Kind == "allow" && strings.Contains(q.Why, "+parameters") && len(o.Handlers) == 1 {
+		r.Count("served_within_parameter_constraints:"+vd.Op, 1)
 	}
 	if vd.Kind == "deny" && strings.HasPrefix(vd.Reason, "policy: deny on ") && q.Tok != nil {
 		if x.denyStanzaWithOthers(q.Tok, strings.TrimPrefix(vd.Reason, "policy: deny on ")) != "" {
@@ -1778,6 +1926,22 @@ func c02RunTopology(t *testing.T, r *kit.Result, seed int64, stream uint64, case
 	if x.aborted {
 		return
 	}
+	for _, tk := range x.w.Toks { // writes aimed at the parameter constraints
+		if strings.HasSuffix(tk.Name, "/params") {
+			for i := 0; i < 14 && !x.aborted; i++ {
+				q := x.genReq(tk, true, nil)
+				if q.Op == "read" || q.Op == "list" || q.Op == "scan" || q.Op == "delete" {
+					q.Op = kit.Pick(rng, []string{"update", "patch", "patch"})
+					q.Data = x.paramData(tk, c02CanonHeader(q.Header)+q.Path)
+					if q.Data == nil {
+						q.Data = map[string]any{"v": rng.Canary()}
+					}
+					q.Why += " +parameters"
+				}
+				x.do(q, "param-sweep")
+			}
+		}
+	}
 	x.templSweep("templ-sweep", 10)
 	x.dotSweep("dot-sweep", 3)
 	if x.aborted {
@@ -1856,7 +2020,7 @@ func c02RunTopology(t *testing.T, r *kit.Result, seed int64, stream uint64, case
 func TestVerif_C02_Requests(t *testing.T) {
 	seed := kit.Seed(2)
 	shard, _ := kit.Shard()
-	r := kit.NewResult(t, "c02-requests", seed, "generated namespace trees (depth<=3) x recording secrets/auth mounts at nested and sibling-prefix paths x generated ACL policies (exact, trailing-*, + segments, deny, sudo) x capability lists in generated orders with repetitions, deny first / in the middle / last next to other capabilities, the old-style policy keyword alone and next to a list; namespace trees incl. siblings whose names are string prefixes of one another (a / ab / a-b / a2, p/a / p/ab); tokens in the states {absent, garbage, one character / one byte (head, middle, signature) flipped, truncated signature, revoked, expired, exhausted, exhausted with the queued revocation of the spent token failing once, last use, CIDR-bound, disabled entity, batch, batch mutated / expired, batch created by a service token that is live / revoked completely / revoked through a generated API flow with one storage fault at a generated operation index (the record stays marked in storage) / expired and reaped / expired with the expiry job failing once (record left) / use-limited (creation must be refused), other namespace, root, root policy of a child or grand-child namespace (namespace root token, its child and its orphan child) presented with every namespace of the tree on secrets, auth and system paths, descendant of a revoked ancestor in another namespace}; a sweep of token-handle requests (auth/token/{lookup, lookup-accessor, renew, renew-accessor, revoke, revoke-accessor, revoke-orphan} by callers that hold these paths only in their own namespace, only on the path of a descendant namespace, without sudo or as a generated mix, and by every other token of the world, naming tokens of every namespace in client form, internal form or by accessor, addressed to any namespace) judged on the namespace of the named token; templated policies (entity name / id / metadata, alias name / id, group name / id / metadata selectors; with and without the two opt-ins; several per token, attached to the token or to the entity, processed in generated name order) held by entities whose names, metadata values and alias names are drawn from {+, *, a/b, .., x*, unicode, .hid, b/, +/a, plain} and by a token without entity, with requests aimed at what each block renders to and at what it would render to if the value went unchecked; request paths with dot forms (an ordinary dot-prefixed segment followed by . or .., at every position, doubled slashes around them, ..a, ..., %2e%2e as ordinary segments) on every mount kind; every request (plain, rule-directed and hostile forms: trailing and doubled slashes, ./.. segments, mount-boundary, namespace by header or by path prefix, unknown namespaces, restricted sys APIs in child namespaces, internal operations) is judged by the reference authoriser and compared with handler log, response class, tagged physical writes and a digest of the recording mounts' storage; configuration changes (policy rewrite/delete/recreate, flip of the allow_slashes / allow_wildcards opt-in of a templated policy, change of the name or a metadata value of an entity, token revocation by id / accessor / self, revocation of the parent of a batch token by six API flows with and without a storage fault, revocation of an inner node of a token chain that crosses namespace boundaries (parent namespace -> namespace -> namespace / child namespace, 3-4 levels, optional extra leaves) by the same flows followed at once by every other node of the chain, entity disable and entity policies, unmount / mount / remount, one seal-unseal cycle with requests against the sealed core) are bracketed by the same request before and immediately after; three of four topologies run with the cache (and therefore the policy LRU) enabled, half on a transactional store. A case is non-trivial when (a) a request was refused only because of the token state while its policies allow it, (b) an authorised request reached the handler, or (c) a mutation flipped the verdict of the very next request; distinct by (state, op, mount, backend path)")
+	r := kit.NewResult(t, "c02-requests", seed, "generated namespace trees (depth<=3) x recording secrets/auth mounts at nested and sibling-prefix paths x generated ACL policies (exact, trailing-*, + segments, deny, sudo) x parameter constraints (required_parameters, allowed_parameters with value lists and the * key, denied_parameters) on stanzas that grant create / update / patch, with request parameters that satisfy or violate them; capability lists in generated orders with repetitions, deny first / in the middle / last next to other capabilities, the old-style policy keyword alone and next to a list; namespace trees incl. siblings whose names are string prefixes of one another (a / ab / a-b / a2, p/a / p/ab); tokens in the states {absent, garbage, one character / one byte (head, middle, signature) flipped, truncated signature, revoked, expired, exhausted, exhausted with the queued revocation of the spent token failing once, last use, CIDR-bound, disabled entity, batch, batch mutated / expired, batch created by a service token that is live / revoked completely / revoked through a generated API flow with one storage fault at a generated operation index (the record stays marked in storage) / expired and reaped / expired with the expiry job failing once (record left) / use-limited (creation must be refused), other namespace, root, root policy of a child or grand-child namespace (namespace root token, its child and its orphan child) presented with every namespace of the tree on secrets, auth and system paths, descendant of a revoked ancestor in another namespace}; a sweep of token-handle requests (auth/token/{lookup, lookup-accessor, renew, renew-accessor, revoke, revoke-accessor, revoke-orphan} by callers that hold these paths only in their own namespace, only on the path of a descendant namespace, without sudo or as a generated mix, and by every other token of the world, naming tokens of every namespace in client form, internal form or by accessor, addressed to any namespace) judged on the namespace of the named token; templated policies (entity name / id / metadata, alias name / id, group name / id / metadata selectors; with and without the two opt-ins; several per token, attached to the token or to the entity, processed in generated name order) held by entities whose names, metadata values and alias names are drawn from {+, *, a/b, .., x*, unicode, .hid, b/, +/a, plain} and by a token without entity, with requests aimed at what each block renders to and at what it would render to if the value went unchecked; request paths with dot forms (an ordinary dot-prefixed segment followed by . or .., at every position, doubled slashes around them, ..a, ..., %2e%2e as ordinary segments) on every mount kind; every request (plain, rule-directed and hostile forms: trailing and doubled slashes, ./.. segments, mount-boundary, namespace by header or by path prefix, unknown namespaces, restricted sys APIs in child namespaces, internal operations) is judged by the reference authoriser and compared with handler log, response class, tagged physical writes and a digest of the recording mounts' storage; configuration changes (policy rewrite/delete/recreate, flip of the allow_slashes / allow_wildcards opt-in of a templated policy, change of the name or a metadata value of an entity, token revocation by id / accessor / self, revocation of the parent of a batch token by six API flows with and without a storage fault, revocation of an inner node of a token chain that crosses namespace boundaries (parent namespace -> namespace -> namespace / child namespace, 3-4 levels, optional extra leaves) by the same flows followed at once by every other node of the chain, entity disable and entity policies, unmount / mount / remount, one seal-unseal cycle with requests against the sealed core) are bracketed by the same request before and immediately after; three of four topologies run with the cache (and therefore the policy LRU) enabled, half on a transactional store. A case is non-trivial when (a) a request was refused only because of the token state while its policies allow it, (b) an authorised request reached the handler, or (c) a mutation flipped the verdict of the very next request; distinct by (state, op, mount, backend path)")
 	defer r.Write(t)
 	ntopo := kit.N(24, 100)
 	nreq := kit.N(800, 2500)
@@ -1900,6 +2064,9 @@ func TestVerif_C02_Requests(t *testing.T) {
 	r.Require("batch_refused_while_parent_record:absent", int64(ntopo*10))
 	r.Require("world_faults_fired", int64(ntopo*2))
 	r.Require("mutation_faults_fired", int64(ntopo))
+	r.Require("refused_for_parameter_constraints:patch", int64(ntopo*2))
+	r.Require("refused_for_parameter_constraints:update", int64(ntopo))
+	r.Require("served_within_parameter_constraints:patch", int64(ntopo))
 	r.Require("refused_by_stanza_listing_deny_with_other_capabilities", int64(ntopo*8))
 	r.Require("nsroot_outside_subtree_refused:prefix-sibling", int64(ntopo*3))
 	r.Require("mutations:template-optin-flip", int64(ntopo*2))
